@@ -278,6 +278,36 @@ func Check() *common.Check {
 				sql := sql
 				e.Do("lexical|"+sql, func(c *common.Ctx) { c.Sample(sql); compareAll(c, sql, "lexical") })
 			}
+			// the documented limits, at the boundary: inputs of MaxInputSize and MaxInputSize+1 bytes whose bulk is padding
+			// before / after / inside a short statement (valid and invalid).  Every entry point sees the same text, so all
+			// must agree on acceptance and on the dedicated limit code - also those that pre-process the text.
+			for _, stmt := range []string{"SELECT 1", "SELECT FROM"} {
+				for _, shape := range []string{"trailing-blanks", "leading-blanks", "inner-blanks", "trailing-newlines", "trailing-comment"} {
+					for _, over := range []int{0, 1} {
+						stmt, shape, over := stmt, shape, over
+						key := fmt.Sprintf("limit|%s|%s|+%d", stmt, shape, over)
+						e.Do(key, func(c *common.Ctx) {
+							n := tokenizer.MaxInputSize + over
+							padN := n - len(stmt)
+							var sql string
+							switch shape {
+							case "trailing-blanks":
+								sql = stmt + strings.Repeat(" ", padN)
+							case "leading-blanks":
+								sql = strings.Repeat(" ", padN) + stmt
+							case "inner-blanks":
+								sql = stmt[:6] + strings.Repeat(" ", padN) + stmt[6:]
+							case "trailing-newlines":
+								sql = stmt + strings.Repeat("\n", padN)
+							case "trailing-comment":
+								sql = stmt + " --" + strings.Repeat("x", padN-3)
+							}
+							c.Input(key)
+							compareAll(c, sql, "limit:"+shape)
+						})
+					}
+				}
+			}
 			// batches
 			pool := []string{"SELECT c1 FROM t1", "SELECT c1 FROM t1 WHERE c2 IN (1, 2)", "INSERT INTO t1 (c1) VALUES (ARRAY[1, 2])", "SELECT (c1, c2) FROM t1",
 				"SELECT FROM", "SELECT 'abc", "UPDATE t1 SET"}
